@@ -6,8 +6,9 @@ This is an exact program transformation (no approximation) under the conditions 
     nested definitions or `super()`;
   * it is referenced once in all analysed sources (so nothing else calls, overrides-and-calls, stores or getattr()s it) and no other class
     defines a method of that name (no override can be selected by dynamic dispatch);
-  * it has a single exit: no `return` at all, a trailing bare `return`, or - for `x = self._h(...)` / `return self._h(...)` call sites - one
-    trailing `return <expr>`;
+  * its `return`s sit only in plain statement sequences and `if` branches (not inside a loop, try or with): they are eliminated exactly -
+    `return v` becomes the call site's `x = v` / `return v` / nothing, and the statements after an `if` that can return move into its
+    branches (same tests, same order of evaluation);
   * every argument is a name, an attribute chain or a constant (evaluating it where the parameter is read is the same as evaluating it
     at the call), every parameter is bound, and no parameter is re-bound in the helper;
   * helper locals that collide with names of the caller are renamed.
@@ -124,10 +125,37 @@ def _eligible(fn: ast.AST, is_method: bool) -> Optional[str]:
             return 'super()'
         if isinstance(n, ast.Call) and isinstance(n.func, ast.Name) and n.func.id in ('locals', 'vars', 'eval', 'exec'):
             return n.func.id
-    rets = [n for n in ast.walk(fn) if isinstance(n, ast.Return)]
-    if len(rets) > 1 or (rets and rets[0] is not body[-1]):
-        return 'more than one exit'
+    if _eliminate_returns(body, lambda v, like: ast.copy_location(ast.Pass(), like)) is None:
+        return 'a return inside a loop / try / with'
     return None
+
+
+def _eliminate_returns(stmts: List[ast.stmt], mk) -> Optional[List[ast.stmt]]:
+    """The statement list with every `return v` replaced by mk(v, return_node) and the statements that follow an `if` that can return
+    moved into its branches (exact: same tests, same order of evaluation).  None if a return sits inside a loop, try or with."""
+    out: List[ast.stmt] = []
+    for i, s in enumerate(stmts):
+        if isinstance(s, ast.Return):
+            out.append(mk(s.value, s))
+            return out
+        if not any(isinstance(n, ast.Return) for n in ast.walk(s)):
+            out.append(s)
+            continue
+        if not isinstance(s, ast.If):
+            return None
+        rest = stmts[i + 1:]
+        b = _eliminate_returns(list(s.body) + [clone(x) for x in rest], mk)
+        o = _eliminate_returns(list(s.orelse) + [clone(x) for x in rest], mk)
+        if b is None or o is None:
+            return None
+        new = ast.copy_location(ast.If(test=s.test, body=b or [ast.copy_location(ast.Pass(), s)], orelse=o), s)
+        out.append(new)
+        return out
+    like = stmts[-1] if stmts else None
+    tail = mk(None, like) if like is not None else None
+    if tail is not None and not isinstance(tail, ast.Pass):
+        out.append(tail)
+    return out
 
 
 def _strip_doc(body: List[ast.stmt]) -> List[ast.stmt]:
@@ -214,24 +242,26 @@ def _inline_at(caller: ast.AST, stmt: ast.stmt, call: ast.Call, helper: ast.Func
     clash = locals_h & (_names(caller) | {x.arg for x in caller.args.args + caller.args.kwonlyargs})
     rename = {k: f'{k}__{helper.name.strip("_")}' for k in clash}
     new_body = [_Subst(params, rename).visit(clone(s)) for s in body]
-    last = new_body[-1] if new_body else None
-    _reorder_lines(new_body, stmt.lineno)
+    def is_none(v):
+        return v is None or (isinstance(v, ast.Constant) and v.value is None)
+
     if isinstance(stmt, ast.Expr):
-        if isinstance(last, ast.Return):
-            if last.value is not None and not (isinstance(last.value, ast.Constant) and last.value.value is None):
-                # value discarded by the caller: keep the evaluation
-                new_body[-1] = ast.copy_location(ast.Expr(value=last.value), last)
-            else:
-                new_body.pop()
-        return new_body or [ast.copy_location(ast.Pass(), stmt)]
-    if not isinstance(last, ast.Return) or last.value is None:
-        return None
-    if isinstance(stmt, ast.Assign):
-        new_body[-1] = ast.copy_location(ast.Assign(targets=[clone(t) for t in stmt.targets], value=last.value), last)
+        def mk(v, like):        # value discarded by the caller: keep the evaluation
+            return ast.copy_location(ast.Pass() if is_none(v) else ast.Expr(value=v), like)
+    elif isinstance(stmt, ast.Assign):
+        def mk(v, like):
+            return ast.copy_location(ast.Assign(targets=[clone(t) for t in stmt.targets],
+                                                value=v if v is not None else ast.copy_location(ast.Constant(value=None), like)), like)
     elif isinstance(stmt, ast.Return):
-        new_body[-1] = ast.copy_location(ast.Return(value=last.value), last)
+        def mk(v, like):
+            return ast.copy_location(ast.Return(value=v), like)
     else:
         return None
+    new_body = _eliminate_returns(new_body, mk)
+    if new_body is None:
+        return None
+    new_body = new_body or [ast.copy_location(ast.Pass(), stmt)]
+    _reorder_lines(new_body, stmt.lineno)
     return new_body
 
 
